@@ -3433,6 +3433,42 @@ impl LineBuf {
 			(start,end)
 		}
 	}
+	/// Where an operator that leaves the text in place (yank, the case operators, 'g?') leaves the cursor:
+	/// at the start of the text it worked on; for whole lines, where the motion itself goes if that is
+	/// before the cursor ('yk': the line above, same column; 'ygg', 'yG': the first non-blank of that line).
+	fn place_cursor_after_operator(&mut self, motion: &MotionKind, start: usize) {
+		let cursor = self.cursor.get();
+		let target = match motion {
+			MotionKind::InclusiveWithTargetCol((range_start,_),col) => {
+				if *range_start < self.start_of_line() {
+					// the motion went up: its line starts the range
+					let line_end = (*range_start..self.cursor.max)
+						.find(|i| self.grapheme_at(*i).is_none_or(|gr| gr == "\n"))
+						.unwrap_or(self.cursor.max);
+					(*range_start + *col).min(line_end.saturating_sub(1).max(*range_start))
+				} else {
+					cursor
+				}
+			}
+			MotionKind::LineOffset(offset) => {
+				let target_line = self.cursor_line_number().saturating_add_signed(*offset);
+				match self.line_bounds(target_line) {
+					Some((line_start,line_end)) => {
+						let mut pos = line_start;
+						while pos + 1 < line_end && self.grapheme_at(pos).is_some_and(|gr| gr != "\n" && is_whitespace(gr)) && self.grapheme_at(pos + 1).is_some_and(|gr| gr != "\n") {
+							pos += 1;
+						}
+						pos
+					}
+					None => cursor
+				}
+			}
+			_ => start
+		};
+		if target < cursor || !matches!(motion, MotionKind::InclusiveWithTargetCol(..) | MotionKind::LineOffset(_)) {
+			self.cursor.set(target);
+		}
+	}
 	/// Are there `count` characters from the cursor to the end of its line (what 'r' with a count needs)?
 	pub fn replace_fits(&mut self, count: usize) -> bool {
 		let left_on_line = (self.cursor.get()..self.cursor.max)
@@ -3676,6 +3712,10 @@ impl LineBuf {
 							let first_non_ws = self.eval_motion(None, MotionCmd(1,Motion::BeginningOfFirstWord));
 							self.move_cursor(first_non_ws);
 						}
+						MotionKind::InclusiveWithTargetCol(..) | MotionKind::LineOffset(_) if verb == Verb::Yank => {
+							let start = range_start.unwrap_or(self.cursor.get());
+							self.place_cursor_after_operator(&motion, start);
+						}
 						MotionKind::ExclusiveWithTargetCol((_,_),pos) |
 							MotionKind::InclusiveWithTargetCol((_,_),pos) => {
 								let (start,end) = self.this_line();
@@ -3701,7 +3741,7 @@ impl LineBuf {
 				let rot13 = rot13(slice);
 				// start and end are grapheme indices, not byte offsets
 				self.replace_range(start, end, &rot13);
-				self.cursor.set(start);
+				self.place_cursor_after_operator(&motion, start);
 			}
 			Verb::ReplaceChar(ch) => {
 				let mut buf = [0u8;4];
@@ -3777,16 +3817,7 @@ impl LineBuf {
 					self.replace_at(i,new);
 				}
 				// like the other operators, leave the cursor at the start of the text worked on
-				// (whole lines: where the motion goes, if that is before the cursor)
-				match motion {
-					MotionKind::LineOffset(_) => {}
-					MotionKind::InclusiveWithTargetCol(_,pos) => {
-						if pos < self.cursor.get() {
-							self.cursor.set(pos);
-						}
-					}
-					_ => { self.cursor.set(start); }
-				}
+				self.place_cursor_after_operator(&motion, start);
 			}
 			Verb::ToLower => {
 				let Some((start,end)) = self.range_from_motion(&motion) else {
@@ -3812,16 +3843,7 @@ impl LineBuf {
 					self.replace_at(i,new);
 				}
 				// like the other operators, leave the cursor at the start of the text worked on
-				// (whole lines: where the motion goes, if that is before the cursor)
-				match motion {
-					MotionKind::LineOffset(_) => {}
-					MotionKind::InclusiveWithTargetCol(_,pos) => {
-						if pos < self.cursor.get() {
-							self.cursor.set(pos);
-						}
-					}
-					_ => { self.cursor.set(start); }
-				}
+				self.place_cursor_after_operator(&motion, start);
 			}
 			Verb::ToUpper => {
 				let Some((start,end)) = self.range_from_motion(&motion) else {
@@ -3847,16 +3869,7 @@ impl LineBuf {
 					self.replace_at(i,new);
 				}
 				// like the other operators, leave the cursor at the start of the text worked on
-				// (whole lines: where the motion goes, if that is before the cursor)
-				match motion {
-					MotionKind::LineOffset(_) => {}
-					MotionKind::InclusiveWithTargetCol(_,pos) => {
-						if pos < self.cursor.get() {
-							self.cursor.set(pos);
-						}
-					}
-					_ => { self.cursor.set(start); }
-				}
+				self.place_cursor_after_operator(&motion, start);
 			}
 			Verb::Redo |
 				Verb::Undo => {
